@@ -62,6 +62,7 @@ def check(rep: Report, ctx: Ctx) -> None:
     r720(rep, ctx)
     r721(rep, ctx)
     r722(rep, ctx)
+    r723(rep, ctx)
 
 
 def scc_order(rep: Report, ctx: Ctx, rule: str, det: Optional[FuncInfo] = None,
@@ -1856,3 +1857,10 @@ def r722(rep: Report, ctx: Ctx) -> None:
              "loop-back edges) are computed as defined: which set from "
              "which, under which case split", 18)
     classification(rep, ctx, "R7.22")
+
+
+def r723(rep: Report, ctx: Ctx) -> None:
+    from .util import crossed_handoffs
+    rep.rule("R7.23", "positional hand-offs in loop extraction do not cross "
+             "two parameters", 1)
+    crossed_handoffs(rep, ctx, "R7.23", ("loop_detection/", "utils.py"), 95)
